@@ -34,3 +34,21 @@ package ecs
 //@   ensures  empty: len(c.filters) == 0 && len(c.indices) == 0
 //@   ensures  pool: old(len(c.indices)) == 0 || (len(c.intPool.pool) == 0 && c.intPool.available == 0)
 //@   ensures  unregistered: forall k int :: 0 <= k && k < old(len(c.filters)) ==> old(c.filters[k].filter).cache == maxCacheID
+
+// The id index of the cache (C05): entry k is found under its id, every indexed id leads to the
+// entry that carries it, and the ids of registered entries are ids the pool has issued and not
+// taken back -- so a later register can never hand out the id of a filter that is still registered.
+//@ pred cacheIdx(c *cache) :=
+//@      c.indices != nil && ipInv(&c.intPool)
+//@   && (forall k int :: __trigger(c.filters[k].id) && (0 <= k && k < len(c.filters) ==> __has(c.indices, c.filters[k].id) && c.indices[c.filters[k].id] == k))
+//@   && (forall id cacheID :: __has(c.indices, id) ==> 0 <= c.indices[id] && c.indices[id] < len(c.filters) && c.filters[c.indices[id]].id == id)
+//@   && (forall k int :: __trigger(c.filters[k].id) && (0 <= k && k < len(c.filters) ==> ipIssued(&c.intPool, c.filters[k].id)))
+
+//@ func (*cache).unregister
+//@   serves C05
+//@   requires cacheIdx(c) && filter != nil
+//@   panics   !__has(c.indices, filter.cache)
+//@   ensures  inv: cacheIdx(c)
+//@   ensures  removed: !__has(c.indices, old(filter.cache)) && filter.cache == maxCacheID && len(c.filters) == old(len(c.filters)) - 1
+//@   ensures  others: forall id cacheID :: id != old(filter.cache) ==> __has(c.indices, id) == old(__has(c.indices, id))
+//@   ensures  entries: forall id cacheID :: id != old(filter.cache) && __has(c.indices, id) ==> c.filters[c.indices[id]].filter == old(c.filters[c.indices[id]].filter) && __same(c.filters[c.indices[id]].tables.indices, old(c.filters[c.indices[id]].tables.indices))
